@@ -960,3 +960,46 @@ def c10_k6(ctx):
         yield bad("C10-K6", "SendTransaction::until_timeout", at(ut), "handle_timeout acts in phase(s) %s but until_timeout does not return the timer deadline there: the transaction is never woken (no retransmission, no limit, never ends)" % missing)
     else:
         yield ok("C10-K6", "SendTransaction::until_timeout", at(ut), {"active_phases": active, "armed_phases": sorted(armed)})
+
+
+# ================================================================ C07-S8
+INT_W = {"u8": 8, "u16": 16, "u32": 32, "u64": 64, "usize": 64, "u128": 128, "i8": 8, "i16": 16, "i32": 32, "i64": 64, "isize": 64, "i128": 128}
+
+
+def narrowing_casts(prog, fns):
+    """(fn, block, stmt, from, to, provably_lossless) for every integer cast to a narrower type."""
+    from ranges import Ranges, ty_range
+
+    for f in fns:
+        rg = None
+        for b in f.live_blocks():
+            for s in f.blocks[b]["stmts"]:
+                if s["k"] != "assign" or s["rv"]["k"] != "cast" or not str(s["rv"].get("cast", "")).startswith("IntToInt"):
+                    continue
+                rv = s["rv"]
+                op = rv["op"]
+                to = rv["ty"]
+                frm = op.get("place", {}).get("ty") if op.get("k") in ("copy", "move") else op.get("ty")
+                if frm not in INT_W or to not in INT_W:
+                    continue
+                if INT_W[to] >= INT_W[frm]:
+                    continue
+                rg = rg or Ranges(prog, f)
+                r = rg.of(rg.eb.operand(op))
+                tr = ty_range(to)
+                yield f, b, s, frm, to, bool(r and tr and r[0] >= tr[0] and r[1] <= tr[1])
+
+
+@rule("C07", "C07-S8", 1, "offsets, lengths and sizes keep their width in the transaction code: no integer cast there can truncate (a narrowing `as` must be provably lossless)", also=("C08", "C09", "C20"))
+def c07_s8(ctx):
+    fns = [f for f in ctx.prog.by_norm.values() if f.crate == "cfdp_daemon" and not f.mac]
+    n = 0
+    for f, b, s, frm, to, lossless in narrowing_casts(ctx.prog, fns):
+        n += 1
+        key = "%s:%s->%s" % (short(f.root or f.norm), frm, to) + ("#%d" % n if n > 1 else "")
+        txt = expr_str(ExprBuilder(ctx.prog, f, user_stop=True).rvalue(s["rv"]))[:120]
+        if lossless:
+            yield ok("C07-S8", key, at(f, s["span"]["line"]), "%s is provably within %s" % (txt, to))
+        else:
+            yield bad("C07-S8", key, at(f, s["span"]["line"]), "%s narrows a %s to %s and can truncate: an offset / length / size beyond %s wraps silently" % (txt, frm, to, to))
+    yield ok("C07-S8", "cfdp-daemon:narrowing-casts", "%d functions" % len(fns), "%d narrowing integer casts" % n, nontrivial=(n == 0))
